@@ -576,6 +576,11 @@ def rule_g(F):
     return res
 
 
+def _c19_rule_c(F):
+    from rules import c19 as _c19
+    return _c19.rule_c(F)
+
+
 def _c19_rule_x(F):
     from rules import c19 as _c19
     return _c19.rule_x(F)
@@ -583,6 +588,7 @@ def _c19_rule_x(F):
 
 RULES = [
     Rule("C01.G", rule_g, 1, "an unset global is distinguishable from every value a script can store"),
+    Rule("C01.R", shared(_c19_rule_c, "C19.C", "C01.R"), 2, "Less / LessOrEq on numbers follow the payloads' own order (shared with C19.C)"),
     Rule("C01.Q", shared(_c19_rule_x, "C19.X", "C01.Q"), 2, "Equals / NotEquals on numbers is exact equality (shared with C19.X)"),
     Rule("C01.I", rule_i, 5, "loop locals are stored into their slots before the loop code reads them"),
     Rule("C01.T", rule_t, 36, "operator cards -> like-named instruction -> like operator"),
